@@ -1,11 +1,14 @@
 mod c02;
 mod c03;
 mod c07;
+mod c11;
 mod c12;
 mod c13;
 mod c16;
 mod core;
+mod auto;
 mod logcap;
+mod rx;
 mod sched;
 mod srch;
 
@@ -16,6 +19,7 @@ fn main() {
         "c02" => c02::run(&args),
         "c03" => c03::run(&args),
         "c07" => c07::run(&args),
+        "c11" => c11::run(&args),
         "c12" => c12::run(&args),
         "c13" => c13::run(&args),
         "c16" => c16::run(&args),
